@@ -499,7 +499,8 @@ func (t *refDec) block(p []byte) (em []hpack.HeaderField, failed bool) {
 			if err != nil || v > t.allowed {
 				return em, true
 			}
-			t.firstField = false
+			// a table size update does not end the beginning of the block (RFC 7541 §4.2, several
+			// updates are allowed there): firstField is kept (repaired Decoder.Write, fix for C01)
 			t.maxSize = v
 			t.evict()
 		default:
